@@ -76,6 +76,16 @@ package interp
 //@ func (*ExecEnv).Walk
 //@   requires fn != nil
 
+// Expansion and evaluation change the store only through Set; they never
+// write Args, Opts, Aliases (the field or the map) or any field of the AST.
+//@ func (*ExecEnv).Expand
+//@   preserves[C20] F.interp.ExecEnv.* F.ast.* MapHas.Str.Str MapVal.Str.Str
+//@   preserves[C20] region field:interp.ExecEnv.Args field:ast.* ext:Expand.word unboxed:ast.*
+//@ func (*ExecEnv).Eval
+//@   preserves[C20] F.interp.ExecEnv.* F.ast.* MapHas.Str.Str MapVal.Str.Str
+//@   preserves[C20] region field:interp.ExecEnv.Args field:ast.*
+//@   ensures err != nil ==> err is ArithExprError
+
 //@ func (*ExecEnv).expand
 //@   loop "for mode&Assign != 0" invariant 0 <= i && i < len(word) && len(fields) >= 1
 //@   ensures err == nil ==> len(fields) >= 1
@@ -104,9 +114,6 @@ package interp
 
 //@ func (*ExecEnv).join
 //@   ensures result != nil
-
-//@ func (*ExecEnv).Eval
-//@   ensures err != nil ==> err is ArithExprError
 
 //@ func (*field).merge
 //@   requires t != nil
